@@ -1,1 +1,509 @@
 import LenaModel.Model.C15
+import LenaModel.Model.C15Spec
+import LenaModel.Lemmas.C15
+/-! # C15 — property theorems
+
+*Selectors evaluate compositionally; GroupBy partitions by the selected context.*
+
+The theorems are about the executable model `LenaModel/Model/C15.lean` (a transcription of
+`lena/flow/selectors.py`, `filter.py`, `group_by.py`, `lena/context/include_exclude_tree.py`, and of
+`contains`/`get_recursively`), for ALL specifications, key sets, contexts and flows (no bound on depth
+or length).  The vocabulary they are stated with (`sem`, `semB`, `valAt`, `polarity`, `keepL`, `atPath`,
+`AgreeOn`, `groupsOf`, …) is defined in `LenaModel/Model/C15Spec.lean`; helper lemmas are in
+`LenaModel/Lemmas/C15.lean`.  Each theorem quotes the sentence of the property it formalises and is followed
+by an `example` with a concrete instance.
+
+Part 1: `Selector`/`And`/`Or`/`Not`/`SelectContext`/`Filter`.  Part 2: `make_include_exclude_tree` and
+`IncludeExcludeTree.get` are the longest-listed-prefix rule.  Part 3: `GroupBy`. -/
+
+namespace Lena.C15
+
+/-! ## Part 1 — selectors, `SelectContext`, `Filter` -/
+
+section Sem
+variable (names : List String)
+
+/-- **"Selector evaluates its specification compositionally"** — for every specification `s` (any nesting
+depth, instances with their own `raise_on_error` included) and both inherited `raise_on_error` settings
+`r`, the selector objects built by `Selector.__init__`/`And.__init__`/`Or.__init__` evaluate to the
+reference semantics `sem`, which is defined on the specification alone:
+* as an item of a list/tuple or the argument of `Filter` (`mkSelector`: wrapped unless already an instance),
+* as `Selector(s, raise_on_error=r)`,
+* as `Filter(s)`. -/
+theorem selector_compositional (r : Bool) (s : Spec) (v : Item) :
+    (∀ o, mkSelector r s = some o → call names o v = sem names r s v) ∧
+    (∀ i, inner r s = some i → call names (.selector i r) v = absorb r (sem names r s v)) ∧
+    (∀ o, filterInit s = some o → call names o v = sem names true s v) :=
+  ⟨fun o h => mk_sem names s r o v h,
+   fun i h => by rw [call]; exact inner_of_mk names (mk_sem names s) r i v h,
+   fun o h => mk_sem names s true o v h⟩
+
+/-- OR and AND of the reference semantics are the short-circuit folds of the items' outcomes -/
+theorem sem_list_tuple (r : Bool) (l : List Spec) (v : Item) :
+    sem names r (.list l) v = absorb r (orRes (l.map (fun s => sem names r s v))) ∧
+    sem names r (.tuple l) v = absorb r (andRes (l.map (fun s => sem names r s v))) := by
+  simp [sem, semAny_eq_orRes, semAll_eq_andRes]
+
+/-- construction fails (`LenaTypeError`) exactly when some item, at any depth, is neither a class, a
+callable, a string, a list nor a tuple — for `Selector`, for items and for `Filter` -/
+theorem selector_init_error (r : Bool) (s : Spec) :
+    (inner r s = none ↔ s.hasBad = true) ∧ (mkSelector r s = none ↔ s.hasBad = true) ∧
+    (filterInit s = none ↔ s.hasBad = true) :=
+  ⟨inner_none s r, mkSelector_none s r, mkSelector_none s true⟩
+
+example : (Spec.list [.cls .int, .tuple [.bad]]).hasBad = true := by decide
+
+example : (mkSelector true (Spec.list [.cls .int, .tuple [.bad]])).isNone = true := by decide
+
+/-- **"with raise_on_error=False an exception inside any leaf counts as not selected instead of
+propagating"** — `Selector(s, raise_on_error=False)` never raises, whatever `s` contains; and when every
+instance inside `s` was built with `raise_on_error=False` too, the result is the boolean semantics `semB`
+in which a raising leaf is `False`. -/
+theorem selector_absorbs_errors (s : Spec) (v : Item) :
+    (∀ i, inner false s = some i → ∃ b, call names (.selector i false) v = .ok b) ∧
+    (s.allRoe false = true → ∀ o, mkSelector false s = some o → call names o v = .ok (semB names s v)) := by
+  refine ⟨fun i _ => ⟨_, by rw [call, absorb_false_ok]⟩, fun ha o ho => ?_⟩
+  have hb : s.hasBad = false := by
+    cases hb : s.hasBad with
+    | false => rfl
+    | true => rw [(mkSelector_none s false).2 hb] at ho; cases ho
+  rw [mk_sem names s false o v ho, sem_false names s v ha hb]
+
+/-- a raising callable inside a list inside a tuple, `raise_on_error=False`: the tuple is not selected
+on an `int` (the list is `False`), where the class test alone would select -/
+example :
+    let s := Spec.tuple [.cls .int, .list [.fn (fun _ => .raise "Other:ZeroDivisionError")]]
+    s.allRoe false = true ∧
+      (mkSelector false s).map (fun o => call [] o ⟨.int 3, none⟩) = some (.ok false) := by decide
+
+/-- **the compositional rule in boolean form** — when every leaf returns a boolean on `v`, the selector
+returns `semB`: string ↦ `contains`, class ↦ `isinstance`, callable ↦ its value, list ↦ OR, tuple ↦ AND,
+`Not` ↦ negation, `SelectContext` ↦ predicate on the sub-context — whatever the `raise_on_error`s are -/
+theorem selector_total_leaves (r : Bool) (s : Spec) (v : Item) (ht : s.totalOn names v = true) :
+    ∀ o, mkSelector r s = some o → call names o v = .ok (semB names s v) := by
+  intro o ho
+  have hb : s.hasBad = false := by
+    cases hb : s.hasBad with
+    | false => rfl
+    | true => rw [(mkSelector_none s r).2 hb] at ho; cases ho
+  rw [mk_sem names s r o v ho, sem_total names s r v ht hb]
+
+theorem semB_list_tuple_not (l : List Spec) (s : Spec) (r : Bool) (v : Item) :
+    semB names (.list l) v = l.any (semB names · v) ∧ semB names (.tuple l) v = l.all (semB names · v) ∧
+    semB names (.notI s r) v = !semB names s v := by
+  simp [semB, semBAny_eq_any, semBAll_eq_all]
+
+example :
+    let s := Spec.notI (.tuple [.cls .int, .list [.str "a.b", .fn (fun v => .ok (v.data == .int 3))]]) true
+    let v : Item := ⟨.int 3, some [some (.dict [none, some (.leaf (.int 1))]), none]⟩
+    s.totalOn ["a", "b"] v = true ∧ (mkSelector true s).map (fun o => call ["a", "b"] o v) = some (.ok false) := by
+  decide
+
+/-- `s.split('.')` is never empty: there is a last level -/
+theorem splitDots_concat (s : String) : ∃ init last, splitDots s = init ++ [last] := by
+  rcases List.eq_nil_or_concat (splitDots s) with h | ⟨init, last, h⟩
+  · unfold splitDots at h
+    rw [List.map_eq_nil_iff] at h
+    exact absurd h (splitDotsC_ne_nil _)
+  · exact ⟨init, last, by simpa using h⟩
+
+/-- **"a string tests the context with contains"**, declaratively: the empty string names the context
+itself; otherwise all dot-separated levels but the last address a value through nested dictionaries, and
+the last level is a key of that dictionary or, if a scalar is found, equals its `str()` -/
+theorem contains_spec (d : Slots) (s : String) (init : List String) (last : String) (hs : s ≠ "")
+    (h : splitDots s = init ++ [last]) :
+    contains names d s =
+      match valAt names (.dict d) init with
+      | none => false
+      | some (.dict l) => (lookupKey names l last).isSome
+      | some (.leaf a) => pyStr a == last := by
+  rw [contains, if_neg hs, h, containsGo_spec]
+
+example : splitDots "a.b.1" = ["a", "b"] ++ ["1"] := by decide
+
+example : contains ["a", "b"] [some (.dict [none, some (.leaf (.int 1))]), none] "a.b.1" = true := by decide
+
+/-- **"SelectContext … is False when that [the addressed sub-context] is absent"** — whatever the
+predicate (it is not applied) and `raise_on_error`; in particular for a value without context and a
+non-empty key. -/
+theorem select_context_absent_false (key : KeyArg) (p : Val → Res) (roe : Bool) (v : Item) :
+    (valAt names (.dict (v.context names.length)) key.keys = none →
+      call names (.selCtx key p roe) v = .ok false) ∧
+    (v.ctx = none → key.keys ≠ [] → call names (.selCtx key p roe) v = .ok false) := by
+  have h1 : valAt names (.dict (v.context names.length)) key.keys = none →
+      call names (.selCtx key p roe) v = .ok false := by
+    intro h
+    rw [call, getRecursively, getRecGo_eq_valAt, h]
+  refine ⟨h1, fun hc hk => h1 ?_⟩
+  cases hks : key.keys with
+  | nil => exact absurd hks hk
+  | cons k rest => simp [Item.context, hc, valAt, lookupKey_replicate]
+
+example : valAt ["a", "b"] (.dict [some (.leaf (.int 5)), none]) (KeyArg.str "a.b").keys = none := by decide
+
+/-- **"SelectContext applies its predicate to the addressed sub-context"** (with the error handling of
+`Selector`) -/
+theorem select_context_present (key : KeyArg) (p : Val → Res) (roe : Bool) (v : Item) (sub : Val)
+    (h : valAt names (.dict (v.context names.length)) key.keys = some sub) :
+    call names (.selCtx key p roe) v = absorb roe (p sub) := by
+  rw [call, getRecursively, getRecGo_eq_valAt, h]
+
+example : valAt ["a", "b"] (.dict [some (.dict [none, some (.leaf (.int 5))]), none]) (KeyArg.str "a.b").keys
+    = some (.leaf (.int 5)) := by decide
+
+/-- **`Filter.run` in general** — the flow is consumed up to the first value on which the selector raises;
+the selected ones among the values before it are yielded, in order; the exception propagates -/
+theorem filter_stops_at_first_error (o : Obj) (vs : List Item) :
+    filterRun names o vs =
+      ((beforeError names o vs).filter (fun v => call names o v = .ok true), firstError names o vs) := by
+  induction vs with
+  | nil => simp [filterRun, beforeError, firstError]
+  | cons v rest ih =>
+    unfold beforeError at ih ⊢
+    rw [filterRun, firstError, List.takeWhile_cons]
+    cases h : call names o v with
+    | raise e => simp [Res.isOk]
+    | ok b =>
+      cases b with
+      | true => simp [Res.isOk, ih, h]
+      | false => simp [Res.isOk, ih, h]
+
+/-- **"Filter keeps exactly the selected values"** — when the selector raises on no value of the flow,
+`Filter.run` yields exactly the values on which it is `True`, in order; `fill_into` fills the element
+exactly with those values. -/
+theorem filter_keeps_selected (o : Obj) (vs : List Item) (h : ∀ v ∈ vs, ∃ b, call names o v = .ok b) :
+    filterRun names o vs = (vs.filter (fun v => call names o v = .ok true), none) ∧
+    ∀ v, filterFillInto names o v = call names o v := by
+  refine ⟨?_, fun _ => rfl⟩
+  induction vs with
+  | nil => rfl
+  | cons v rest ih =>
+    obtain ⟨b, hb⟩ := h v (by simp)
+    have ih' := ih (fun w hw => h w (by simp [hw]))
+    rw [filterRun, hb]
+    cases b <;> simp [ih', hb]
+
+example :
+    (mkSelector true (.cls .int)).map (fun o =>
+      let r := filterRun [] o [⟨.int 3, none⟩, ⟨.str "s", none⟩, ⟨.bool true, none⟩]
+      (r.1.map (·.data), r.2)) = some ([.int 3, .bool true], none) := by decide
+
+end Sem
+
+/-! ## Part 2 — include/exclude trees -/
+
+/-- the recursion fuel of the model always suffices: `make_include_exclude_tree` and `GroupBy.__init__`
+return a tree or raise `LenaValueError` (the outcome `fuel` does not occur) -/
+theorem make_fuel_suffices :
+    (∀ (I E : List Path) (d : Bool), (make (makeFuel I E) I E d).isFuel = false) ∧
+    (∀ (names includes excludes : List String), (makeIncludeExcludeTree names includes excludes).isFuel = false) ∧
+    (∀ (names : List String) (g m : StrOrTuple), (groupByInit names g m).isFuel = false) := by
+  have h1 : ∀ (I E : List Path) (d : Bool), (make (makeFuel I E) I E d).isFuel = false :=
+    fun I E d => make_not_fuel _ I E d (by unfold makeFuel; omega)
+  have h2 : ∀ (names includes excludes : List String),
+      (makeIncludeExcludeTree names includes excludes).isFuel = false := by
+    intro names inc exc
+    unfold makeIncludeExcludeTree
+    simp only []
+    split
+    · rfl
+    · split
+      · exact h1 _ _ _
+      · rfl
+  refine ⟨h1, h2, ?_⟩
+  intro names g m
+  unfold groupByInit
+  split <;> exact h2 _ _ _
+
+/-- the recursive form of the rule is the rule: `sel` computes the polarity of the longest listed prefix -/
+theorem sel_eq_polarity (I E : List Path) (d : Bool) : sel I E d = polarity I E d :=
+  funext fun p => sel_eq_polarity' p I E d
+
+/-- `prefixesDesc p` are exactly the non-empty prefixes of `p` … -/
+theorem mem_prefixesDesc (p q : Path) : q ∈ prefixesDesc p ↔ q ≠ [] ∧ q <+: p := by
+  unfold prefixesDesc
+  simp only [List.mem_map, List.mem_reverse, List.mem_range]
+  constructor
+  · rintro ⟨n, hn, rfl⟩
+    refine ⟨?_, List.take_prefix _ _⟩
+    cases p with
+    | nil => simp at hn
+    | cons a t => simp
+  · rintro ⟨hne, hpre⟩
+    have hlen := hpre.length_le
+    have hq : 0 < q.length := List.length_pos_iff.2 hne
+    refine ⟨q.length - 1, by omega, ?_⟩
+    rw [show q.length - 1 + 1 = q.length by omega]
+    exact (List.prefix_iff_eq_take.1 hpre).symm
+
+theorem find?_prefixesDesc (f : Path → Bool) : ∀ (p q : Path), q ≠ [] → q <+: p → f q = true →
+    (∀ q', q' ≠ [] → q' <+: p → f q' = true → q'.length ≤ q.length) → (prefixesDesc p).find? f = some q
+  | [], q, hne, hp, _, _ => by
+    rw [List.prefix_nil] at hp
+    exact absurd hp hne
+  | k :: p, q, hne, hp, hf, hmax => by
+    cases q with
+    | nil => exact absurd rfl hne
+    | cons k' q0 =>
+      rw [List.cons_prefix_cons] at hp
+      obtain ⟨rfl, hp0⟩ := hp
+      rw [prefixesDesc_cons, List.find?_append, List.find?_map]
+      by_cases h0 : q0 = []
+      · subst h0
+        have hnone : (prefixesDesc p).find? (f ∘ fun x => k' :: x) = none := by
+          rw [List.find?_eq_none]
+          intro x hx
+          rw [mem_prefixesDesc] at hx
+          intro hfx
+          have := hmax (k' :: x) (by simp) (by rw [List.cons_prefix_cons]; exact ⟨rfl, hx.2⟩) hfx
+          have hx0 : 0 < x.length := List.length_pos_iff.2 hx.1
+          simp only [List.length_cons, List.length_nil] at this
+          omega
+        simp [hnone, hf]
+      · have ih := find?_prefixesDesc (f ∘ fun x => k' :: x) p q0 h0 hp0 hf (by
+          intro q' hq' hpq' hfq'
+          have := hmax (k' :: q') (by simp) (by rw [List.cons_prefix_cons]; exact ⟨rfl, hpq'⟩) hfq'
+          simpa using this)
+        simp [ih]
+
+/-- **the rule, declaratively**: if `q` is the longest listed non-root prefix of `p`, the polarity of `p`
+says whether `q` is an include entry; if no non-root prefix of `p` is listed, it is the polarity of the
+root. -/
+theorem polarity_spec (I E : List Path) (d : Bool) (p : Path) :
+    (∀ q, IsLongestListed I E p q → polarity I E d p = decide (q ∈ I)) ∧
+    ((∀ q, q ≠ [] → q <+: p → q ∉ I ∧ q ∉ E) → polarity I E d p = d) := by
+  constructor
+  · rintro q ⟨hne, hpre, hl, hmax⟩
+    unfold polarity
+    rw [find?_prefixesDesc _ p q hne hpre (by simpa using hl)
+      (fun q' h1 h2 h3 => hmax q' h1 h2 (by simpa using h3))]
+  · intro h
+    unfold polarity
+    have : (prefixesDesc p).find? (fun q => decide (q ∈ I ∨ q ∈ E)) = none := by
+      rw [List.find?_eq_none]
+      intro x hx
+      rw [mem_prefixesDesc] at hx
+      have := h x hx.1 hx.2
+      simp [this.1, this.2]
+    rw [this]
+
+example : IsLongestListed [[0, 1]] [[0], [0, 1, 2]] [0, 1, 5] [0, 1] := by
+  refine ⟨by simp, by simp, by simp, ?_⟩
+  intro q' _ hp hl
+  simp only [List.mem_cons, List.not_mem_nil, or_false] at hl
+  rcases hl with rfl | rfl | rfl
+  · simp
+  · simp
+  · simp at hp
+
+/-- **"every key path whose longest prefix listed in group_by or merge is a group_by entry"** — for every
+tree accepted by `_make_include_exclude_tree` (of any depth) from key sets that list no path twice,
+`IncludeExcludeTree.get(context)` is the part of the context selected by the longest-prefix rule:
+a scalar is kept iff the longest listed prefix of its path is an include entry, a dictionary iff
+something below it is kept or that holds for its own path. -/
+theorem iet_get_is_longest_prefix (f : Nat) (I E : List Path) (d : Bool) (T : Tree)
+    (hd : Disjoint I E) (h : make f I E d = .ok T) (ctx : Slots) :
+    getL T 0 ctx = keepL (polarity I E d) 0 ctx := by
+  rw [← sel_eq_polarity]
+  exact (make_spec f I E d T hd h).2.1 0 ctx
+
+/-- the same for `make_include_exclude_tree(includes, excludes)` on tuples of dotted strings: the root `""`
+is in exactly one of them and says what the default is -/
+theorem make_include_exclude_tree_get (names includes excludes : List String) (T : Tree)
+    (h : makeIncludeExcludeTree names includes excludes = .ok T) :
+    ∃ I E, splitKeys names includes = some I ∧ splitKeys names excludes = some E ∧
+      (includes.contains "" ≠ excludes.contains "") ∧
+      (Disjoint I E → ∀ ctx, getL T 0 ctx = keepL (polarity I E (includes.contains "")) 0 ctx) := by
+  unfold makeIncludeExcludeTree at h
+  simp only [] at h
+  split at h
+  · cases h
+  · rename_i hroot
+    split at h
+    · rename_i I E hI hE
+      refine ⟨I, E, hI, hE, ?_, fun hd ctx => iet_get_is_longest_prefix _ I E _ T hd h ctx⟩
+      intro e; exact hroot (by rw [e]; simp)
+    · cases h
+
+/-- `GroupBy("a.b", "")`-like nesting: root and `a.b` included, `a` excluded; keys `a`=0, `b`=1 -/
+example :
+    (makeIncludeExcludeTree ["a", "b"] ["", "a.b"] ["a"]).tree?.map (fun T =>
+        getL T 0 [some (.dict [some (.leaf (.int 1)), some (.leaf (.int 2))]), some (.leaf (.int 3))])
+      = some [some (.dict [none, some (.leaf (.int 2))]), some (.leaf (.int 3))] := by decide
+
+example : splitKeys ["a", "b"] ["", "a.b"] = some [[0, 1]] ∧ splitKeys ["a", "b"] ["a"] = some [[0]] := by decide
+
+example : Disjoint [[0, 1]] [[0]] := by intro p h1 h2; simp at h1 h2; rw [h1] at h2; cases h2
+
+example : keepL (polarity [[0, 1]] [[0]] true) 0 [some (.dict [some (.leaf (.int 1)), some (.leaf (.int 2))]),
+    some (.leaf (.int 3))] = [some (.dict [none, some (.leaf (.int 2))]), some (.leaf (.int 3))] := by decide
+
+/-- the hypothesis `Disjoint` is needed: with `a` listed in both sets the tree is accepted, and the code
+lets the polarity opposite to the default win (here: excluded), whereas the rule as written reads a tie
+as an include entry -/
+example :
+    (makeIncludeExcludeTree ["a"] ["", "a"] ["a"]).tree?.map (fun T => getL T 0 [some (.leaf (.int 1))])
+      = some [none] ∧
+    keepL (polarity [[0]] [[0]] true) 0 [some (.leaf (.int 1))] = [some (.leaf (.int 1))] := by decide
+
+/-- **the selected part, path by path** — below the root, a scalar is found in `get(context)` at a path iff
+it is found there in the context and the path is selected; and a path is present in `get(context)` iff it,
+or some path below it that is present in the context, is selected. -/
+theorem keep_leaf_paths (pol : Path → Bool) (ctx : Slots) (k : Nat) (p : Path) :
+    (∀ a, atPath (.dict (keepL pol 0 ctx)) (k :: p) = some (.leaf a) ↔
+      atPath (.dict ctx) (k :: p) = some (.leaf a) ∧ pol (k :: p) = true) ∧
+    ((atPath (.dict (keepL pol 0 ctx)) (k :: p)).isSome = true ↔
+      ∃ q, (atPath (.dict ctx) (k :: p ++ q)).isSome = true ∧ pol (k :: p ++ q) = true) := by
+  rw [atPath_keepL]
+  constructor
+  · intro a
+    cases hx : atPath (.dict ctx) (k :: p) with
+    | none => simp
+    | some x =>
+      cases x with
+      | leaf b =>
+        simp only [Option.bind_some, keepV, List.append_nil]
+        by_cases hp : pol (k :: p) = true <;> simp [hp]
+      | dict l =>
+        simp only [Option.bind_some, keepV]
+        split <;> simp
+  · cases hx : atPath (.dict ctx) (k :: p) with
+    | none =>
+      simp only [Option.bind_none, Option.isSome_none, Bool.false_eq_true, false_iff, not_exists, not_and]
+      intro q hq
+      rw [atPath_append, hx] at hq
+      simp at hq
+    | some x =>
+      simp only [Option.bind_some]
+      have hA := keepV_none_iff x (fun q => pol (k :: p ++ q))
+      constructor
+      · intro hs
+        have hne : keepV (fun q => pol (k :: p ++ q)) x ≠ none := by
+          intro e; rw [e] at hs; cases hs
+        rw [Ne, hA] at hne
+        simp only [Classical.not_forall, Bool.not_eq_false] at hne
+        obtain ⟨q, hq, hpq⟩ := hne
+        exact ⟨q, by rw [atPath_append, hx]; simpa using hq, hpq⟩
+      · rintro ⟨q, hq, hpq⟩
+        cases hk : keepV (fun q => pol (k :: p ++ q)) x with
+        | some _ => rfl
+        | none =>
+          rw [atPath_append, hx] at hq
+          have : pol (k :: p ++ q) = false := hA.1 hk q (by simpa using hq)
+          rw [hpq] at this
+          cases this
+
+/-- **"two values share a group exactly when their contexts agree on every [selected] key path"**, at the
+level of keys: two contexts (over the same key alphabet: every dictionary has `n` slots) have the same
+selected part iff on every selected path the same thing is seen in both — nothing, the same scalar, or a
+dictionary. -/
+theorem same_key_iff_agree (n : Nat) (pol : Path → Bool) (c1 c2 : Slots)
+    (h1 : WFV n (.dict c1)) (h2 : WFV n (.dict c2)) :
+    keepL pol 0 c1 = keepL pol 0 c2 ↔ AgreeOn pol (.dict c1) (.dict c2) := by
+  constructor
+  · exact agree_of_keepL_eq
+  · intro h
+    rw [WFV_dict] at h1 h2
+    apply keepL_congr n c1 c2 0 pol (by rw [h1.1, h2.1]) h1.2 h2.2
+    intro j p hp
+    simp only [Nat.zero_add] at hp
+    simpa [seen, atPath_dict_cons] using h _ hp
+
+/-- `{a: {b: 1, c: 5}}` and `{a: {b: 1, c: 6}}` under "`a.b` selected only": same key -/
+example :
+    let pol := polarity [[0, 1]] [] false
+    keepL pol 0 [some (.dict [none, some (.leaf (.int 1)), some (.leaf (.int 5))]), none, none] =
+      keepL pol 0 [some (.dict [none, some (.leaf (.int 1)), some (.leaf (.int 6))]), none, none] := by decide
+
+example : WFV 3 (.dict [some (.dict [none, some (.leaf (.int 1)), some (.leaf (.int 5))]), none, none]) := by
+  simp [WFV, WFL]
+
+/-! ## Part 3 — `GroupBy` -/
+
+/-- a value without context has the empty context, which is well formed -/
+theorem Item.wf_bare (n : Nat) (d : Data) : Item.WF n ⟨d, none⟩ := by
+  simp [Item.WF, Item.context, WFV_dict, wfl_replicate]
+
+/-- **"GroupBy partitions the filled values, preserving arrival order inside a group"** — after filling
+`vs` into a fresh `GroupBy`, `compute()` yields, for every distinct group key in the order of first
+arrival, the values with that key in arrival order.  Hence: every group is a non-empty sub-sequence of
+the flow, every value is in the group of its key, two values are in the same group iff they have the same
+key, and `reset()` empties the element. -/
+theorem groupby_partition (w : Nat) (t : Tree) (vs : List Item) :
+    let key := groupKey w t
+    let groups := gbCompute (vs.foldl (gbFill w t) [])
+    groups = ((vs.map key).eraseDups).map (fun k => vs.filter (fun v => key v = k)) ∧
+    (∀ g ∈ groups, g ≠ [] ∧ g.Sublist vs) ∧
+    (∀ v ∈ vs, vs.filter (fun v' => key v' = key v) ∈ groups) ∧
+    (∀ g ∈ groups, ∀ v1 ∈ g, ∀ v2 ∈ vs, (v2 ∈ g ↔ key v2 = key v1)) ∧
+    gbCompute (gbReset (vs.foldl (gbFill w t) [])) = [] := by
+  intro key groups
+  have hfold : vs.foldl (gbFill w t) [] = groupsOf key vs := by
+    have h0 : vs.foldl (gbFill w t) (groupsOf key []) = groupsOf key ([] ++ vs) := foldl_groupsOf key vs []
+    simpa [groupsOf] using h0
+  have hg : groups = ((vs.map key).eraseDups).map (fun k => vs.filter (fun v => key v = k)) := by
+    simp only [groups, hfold, gbCompute, groupsOf, List.map_map]
+    rfl
+  have hmem : ∀ g, g ∈ groups ↔ ∃ v ∈ vs, g = vs.filter (fun v' => key v' = key v) := by
+    intro g
+    rw [hg]
+    simp only [List.mem_map, List.mem_eraseDups]
+    constructor
+    · rintro ⟨k, ⟨v, hv, rfl⟩, rfl⟩; exact ⟨v, hv, rfl⟩
+    · rintro ⟨v, hv, rfl⟩; exact ⟨key v, ⟨v, hv, rfl⟩, rfl⟩
+  refine ⟨hg, ?_, ?_, ?_, rfl⟩
+  · intro g hgm
+    obtain ⟨v, hv, rfl⟩ := (hmem g).1 hgm
+    refine ⟨?_, List.filter_sublist⟩
+    intro e
+    have : v ∈ vs.filter (fun v' => key v' = key v) := by simp [hv]
+    rw [e] at this; cases this
+  · intro v hv
+    exact (hmem _).2 ⟨v, hv, rfl⟩
+  · intro g hgm v1 h1 v2 h2
+    obtain ⟨v, hv, rfl⟩ := (hmem g).1 hgm
+    simp only [List.mem_filter, decide_eq_true_eq] at h1 ⊢
+    rw [h1.2]
+    exact ⟨fun h => h.2, fun h => ⟨h2, h⟩⟩
+
+/-- **"GroupBy partitions the filled values"**: the groups, concatenated, are a permutation of the flow —
+every filled value is in exactly one group, as many times as it was filled -/
+theorem groupby_groups_perm (w : Nat) (t : Tree) (vs : List Item) :
+    ((gbCompute (vs.foldl (gbFill w t) [])).flatten).Perm vs := by
+  rw [(groupby_partition w t vs).1]
+  refine (flatten_filters_perm (groupKey w t) vs _ (nodup_eraseDups _)).trans ?_
+  apply List.Perm.of_eq
+  rw [List.filter_eq_self]
+  intro v hv
+  simp only [List.mem_eraseDups, decide_eq_true_eq]
+  exact List.mem_map.2 ⟨v, hv, rfl⟩
+
+/-- **the property's last sentence, end to end** — for `GroupBy(group_by, merge)` accepted at construction,
+with no key path listed in both arguments: two values (with contexts over the key alphabet `names`) have
+the same group key — i.e. by `groupby_partition` share a group — exactly when their contexts agree on
+every key path whose longest prefix listed in `group_by` or `merge` is a `group_by` entry. -/
+theorem groupby_share_iff_agree (names : List String) (g m : StrOrTuple) (T : Tree)
+    (h : groupByInit names g m = .ok T) :
+    ∃ I E d, (Disjoint I E → ∀ v1 v2 : Item, v1.WF names.length → v2.WF names.length →
+      (groupKey names.length T v1 = groupKey names.length T v2 ↔
+        AgreeOn (polarity I E d) (.dict (v1.context names.length)) (.dict (v2.context names.length)))) := by
+  have hex : ∃ inc exc, makeIncludeExcludeTree names inc exc = .ok T := by
+    unfold groupByInit at h
+    split at h
+    · exact ⟨_, _, h⟩
+    · exact ⟨_, _, h⟩
+  obtain ⟨inc, exc, h'⟩ := hex
+  obtain ⟨I, E, _, _, _, hget⟩ := make_include_exclude_tree_get names inc exc T h'
+  refine ⟨I, E, inc.contains "", fun hd v1 v2 w1 w2 => ?_⟩
+  unfold groupKey
+  rw [hget hd, hget hd]
+  exact same_key_iff_agree names.length _ _ _ w1 w2
+
+/-- `GroupBy("a.b", "")`-like: five values; keys 1, 2, 1, none, 2 -/
+example :
+    let t : Tree := .node false [] [(0, .node false [1] [])]
+    let c (i : Int) : Option Slots := some [some (.dict [none, some (.leaf (.int i))]), none]
+    (gbCompute ([⟨.int 0, c 1⟩, ⟨.int 1, c 2⟩, ⟨.int 2, c 1⟩, ⟨.int 3, none⟩, ⟨.int 4, c 2⟩].foldl
+      (gbFill 2 t) [])).map (·.map (·.data)) = [[.int 0, .int 2], [.int 1, .int 4], [.int 3]] := by decide
+
+end Lena.C15
